@@ -162,7 +162,9 @@ theorem prefix_ord {b : Builder} {rest : List Token} (h : SpansOrd b rest) (p : 
   split
   · rename_i e he
     exact contentErr_ord he
-  · dsimp only
+  · split
+    · exact hsp
+    dsimp only
     split
     · trivial
     · rename_i eb heb
@@ -356,6 +358,9 @@ theorem step_ord {b : Builder} (t : Token) (rest : List Token) (h : SpansOrd b (
   | comment t sp =>
     exact spansOrd_ext h' (NonTextExt.add _ (by simp) (StrSpan.span_ord t)) h'.2.2
   | pi target content sp =>
+    simp only [Builder.step]
+    split
+    · exact StrSpan.span_ord target
     refine spansOrd_ext h' ?_ h'.2.2
     simp only [Builder.processingInstruction, Builder.addLeaf]
     cases content with
